@@ -888,7 +888,13 @@ class VM:
                 if not isinstance(result, JSObject):
                     return result
             elif callable(method):
-                result = method()
+                from .values import JSBoundMethod
+
+                # Built-in prototype methods take the receiver explicitly
+                if isinstance(method, JSBoundMethod):
+                    result = method(value)
+                else:
+                    result = method()
                 if not isinstance(result, JSObject):
                     return result
 
